@@ -213,19 +213,74 @@ def h_rng_source(env, sim, shots):
     env.holds("samples of two runs with the same seed are identical", sorted(outs[0]) == sorted(outs[1]))
 
 
+class _SymSeed:
+    """a symbolic integer seed: truthiness is decided by the solver (forks the path), equality is a z3 term"""
+    def __init__(self, env, e):
+        self.env, self.e = env, e
+
+    def __bool__(self):
+        return self.env.decide(self.e != 0)
+
+    def __eq__(self, o):
+        return self is o
+
+    def __ne__(self, o):
+        return self is not o
+
+    __hash__ = object.__hash__
+
+
+def h_seed_identity(env):
+    """for EVERY integer seed the generator of a Config is seeded with exactly that seed (so two Configs with the same seed
+    agree); the generator constructors are contract stubs that record the seed they receive"""
+    from piquasso.api import config as CFG
+    env.functions += [core.fn_ref(CFG.Config.__init__)]
+    env.stubs += ["numpy.random.default_rng / random.seed inside piquasso.api.config = recorders of the seed they are handed"]
+    s = env.ivar("seed", 0, 2 ** 63)
+    if env.mode == "num":
+        a, b = CFG.Config(seed_sequence=int(s)), CFG.Config(seed_sequence=int(s))
+        env.holds("the generator is seeded with the user's seed", a.seed_sequence == int(s) and b.seed_sequence == int(s)
+                  and a.rng.integers(0, 2 ** 62) == b.rng.integers(0, 2 ** 62))
+        return
+    got = []
+
+    class _NP:
+        class random:
+            @staticmethod
+            def default_rng(x=None):
+                got.append(x)
+                return None
+        float64 = numpy.float64
+
+    class _R:
+        @staticmethod
+        def seed(x=None):
+            got.append(x)
+    saved = (CFG.np, CFG.random)
+    sym = _SymSeed(env, s)
+    try:
+        CFG.np, CFG.random = _NP, _R
+        CFG.Config(seed_sequence=sym)
+    finally:
+        CFG.np, CFG.random = saved
+    env.holds("the generator is seeded with the user's seed", bool(got) and all(g is sym for g in got))
+
+
+h_seed_identity.replay_any = True
 h_rng_source.replay_any = True
 h_partition.replay_any = True
 
-HARNESSES = {"partition": h_partition, "jobs": h_jobs, "rng_source": h_rng_source}
+HARNESSES = {"partition": h_partition, "jobs": h_jobs, "rng_source": h_rng_source, "seed_identity": h_seed_identity}
 
 
 def instances(tier):
     out = [("partition", {"which": w, "part": p}) for w in ("permanent", "laplace") for p in ("count", "split")]
     out += [("partition", {"which": w, "part": "split", "idx_hi": 14}) for w in ("permanent", "laplace")]     # same query with witnesses the native twin can replay
-    out += [("jobs", {"rows": list(r), "cols": list(c)}) for r, c in (((1, 1), (1, 1)), ((2, 2), (3, 1)), ((2, 0, 1), (1, 1, 1)), ((3, 2), (4, 1)), ((2, 2, 1), (1, 3, 1)), ((4, 2, 1), (2, 3, 2)), ((2, 1, 2, 1), (1, 2, 2, 1)))]
+    out += [("jobs", {"rows": list(r), "cols": list(c)}) for r, c in (((1, 1), (1, 1)), ((2, 2), (3, 1)), ((2, 0, 1), (1, 1, 1)), ((3, 2), (4, 1)), ((2, 2, 1), (1, 3, 1)))]
     out += [("rng_source", {"sim": s, "shots": 2}) for s in ("pure", "mixed")]
+    out += [("seed_identity", {})]
     if tier == "thorough":
-        out += [("jobs", {"rows": list(r), "cols": list(c)}) for r, c in (((3, 3), (3, 3)), ((2, 1, 2), (1, 2, 2)), ((2, 1, 2, 1, 1), (1, 1, 2, 2, 1)))]
+        out += [("jobs", {"rows": list(r), "cols": list(c)}) for r, c in (((4, 2, 1), (2, 3, 2)), ((3, 3), (3, 3)), ((2, 1, 2), (1, 2, 2)), ((2, 1, 2, 1), (1, 2, 2, 1)))]
         out += [("rng_source", {"sim": s, "shots": 3}) for s in ("pure", "mixed")]
     return out
 
@@ -236,7 +291,7 @@ EXPLANATION = (
     "that there is at least one job, never more jobs than indices, job 0 starts at 0, consecutive jobs abut, the last job ends at idx_max-1, every job owns its initial index, "
     "and no intermediate leaves its C++ type. (2) permanent_cpp<double> as a whole, interpreted on a generic complex matrix, equals the definition for every thread-count "
     "class the solver enumerates (including 0). (3) Non-interference of process-global random state: with generators as contract stubs, the solver searches for two runs "
-    "with the same Config seed whose Fock particle-number samples differ."
+    "with the same Config seed whose Fock particle-number samples differ. (4) Config seeds its generators with exactly the user's seed for every integer seed (symbolic)."
 )
 
 
